@@ -312,6 +312,10 @@ def run_check(prop, tier, seed, replay=None):
     inconclusive = None
     if dead and len(dead) * 2 > len(specs):
         inconclusive = 'most shards died: ' + '; '.join(dead[:3])
+    crashed = [d for d in dead if 'watchdog after' not in d]
+    if crashed and not inconclusive:
+        # a shard that died of an exception observed nothing: its part of the workload is undecided, and that must not read as held
+        inconclusive = 'shard crashed (%d of %d): %s' % (len(crashed), len(specs), crashed[0][-300:].replace('\n', ' | '))
     req = getattr(mod, 'REQUIRED_COUNTERS', ())
     zero = [k for k in req if not total.counters.get(k)]
     if not replay and zero:
